@@ -41,6 +41,9 @@ Inductive expr :=
 | EIdxInc (pre : bool) (x : string) (i : expr) (* ++$x[i] / $x[i]++ *)
 | EClosure (id : nat)                          (* function (..) use (..) {..} / fn (..) => e : the id-th closure of the program *)
 | ECallV (f : expr) (a : args)                 (* $f(args) *)
+| EProp (e : expr)                             (* e->n : the public property of an exception object *)
+| ESetProp (e v : expr)                        (* e->n = v *)
+| EHi (e : expr)                               (* e->hi() : the user method `function hi() { return "hi" . $this->n; }` *)
 | EMatch (s : expr) (m : marms)                (* match (s) { c1, c2 => e, ..., default => d } *)
 with args := ANil | ACons (e : expr) (r : args)
 (* the arms in source order; the `default` arm is kept last (the parser stores it apart and a match
@@ -67,6 +70,7 @@ Inductive stmt :=
 | SStatic (x : string) (init : value)          (* static $x = <literal>; *)
 | STry (b : stmt) (cs : catches) (f : stmt)    (* try {b} catch (T $x) {..} ... finally {f}; no finally = SSkip *)
 | SThrow (e : expr)
+| SIfInst (x : string) (T : string) (t e : stmt)   (* if ($x instanceof T) { t } else { e } *)
 with elifs := EINil | EICons (c : expr) (b : stmt) (r : elifs)
 with clauses := CLNil | CLCase (e : expr) (b : stmt) (r : clauses) | CLDefault (b : stmt) (r : clauses)
 with catches := CTNil | CTCons (ty : string) (x : option string) (b : stmt) (r : catches).
@@ -112,14 +116,21 @@ Fixpoint sset (k : skey) (v : value) (s : store) : store :=
   | [] => [(k, v)]
   | (k', w) :: r => if skey_eqb k k' then (k', v) :: r else (k', w) :: sset k v r
   end.
-Definition glob := (store * list chunk * nat)%type.
-Definition empty_glob : glob := ([], [], O).
-Definition gstat (g : glob) : store := fst (fst g).
-Definition gout (g : glob) : list chunk := snd (fst g).
-Definition gnext (g : glob) : nat := snd g.
-Definition set_stat (st : store) (g : glob) : glob := (st, gout g, gnext g).
-Definition mark (c : chunk) (g : glob) : glob := (gstat g, c :: gout g, gnext g).
-Definition bump (g : glob) : glob := (gstat g, gout g, S (gnext g)).
+(* ... and the heap: the one public property `n` that every generated exception class declares
+   (`public $n = 1;`), per object identity *)
+Definition heap := list (nat * value).
+Definition glob := (store * list chunk * nat * heap)%type.
+Definition empty_glob : glob := ([], [], O, []).
+Definition gstat (g : glob) : store := fst (fst (fst g)).
+Definition gout (g : glob) : list chunk := snd (fst (fst g)).
+Definition gnext (g : glob) : nat := snd (fst g).
+Definition gheap (g : glob) : heap := snd g.
+Definition set_stat (st : store) (g : glob) : glob := (st, gout g, gnext g, gheap g).
+Definition mark (c : chunk) (g : glob) : glob := (gstat g, c :: gout g, gnext g, gheap g).
+Definition bump (g : glob) : glob := (gstat g, gout g, S (gnext g), gheap g).
+Fixpoint hget (i : nat) (h : heap) : value :=
+  match h with [] => VInt 1 | (j, v) :: r => if Nat.eqb i j then v else hget i r end.
+Definition set_prop (i : nat) (v : value) (g : glob) : glob := (gstat g, gout g, gnext g, (i, v) :: gheap g).
 
 Fixpoint mem (x : string) (l : list string) : bool :=
   match l with [] => false | y :: r => String.eqb x y || mem x r end.
@@ -155,6 +166,7 @@ Definition scalar_eqb (a b : value) : bool :=
   | VBool x, VBool y => Bool.eqb x y
   | VInt x, VInt y => (x =? y)%Z
   | VStr x, VStr y => String.eqb x y
+  | VObj i _ _, VObj j _ _ => Nat.eqb i j        (* == on objects: only "the same object" is in the domain *)
   | _, _ => false
   end.
 Definition binop (o : bop) (a b : value) : value :=
@@ -175,13 +187,14 @@ Definition binop (o : bop) (a b : value) : value :=
 (* a === b on scalars and exception objects (identity) *)
 Definition same_value (a b : value) : bool :=
   match a, b with
-  | VObj i _ _, VObj j _ _ => Nat.eqb i j
   | VErr m, VErr m' => String.eqb m m'        (* isStrictEqual falls back to the string forms *)
   | _, _ => scalar_eqb a b
   end.
 (* $e->getMessage() and get_class($e) of a caught exception *)
 Definition msg_of (v : value) : option string :=
   match v with VObj _ _ m => Some m | VErr m => Some m | _ => None end.
+Definition obj_id (v : value) : option nat :=
+  match v with VObj i _ _ => Some i | _ => None end.
 Definition class_of (v : value) : option string :=
   match v with VObj _ c _ => Some c | _ => None end.
 (* what `throw v` throws: an object or a caught internal error as it is; anything else becomes an
